@@ -245,7 +245,7 @@ func (c *Ctx) handlerStates(fn *ssa.Function, d int) []int64 {
 // alwaysBlocks: every path from the entry to a return passes a blocking select / receive.
 func alwaysBlocks(fn *ssa.Function) bool {
 	w := &Walk{Fn: fn}
-	w.Visit = func(in ssa.Instruction, _ map[*ssa.Phi]Val) bool {
+	w.Visit = func(in ssa.Instruction, _ Env) bool {
 		switch x := in.(type) {
 		case *ssa.Select:
 			if x.Blocking {
@@ -489,7 +489,7 @@ func ruleRecoverability(c *Ctx, r *Report) {
 					break
 				}
 			}
-			w.Visit = func(in ssa.Instruction, _ map[*ssa.Phi]Val) bool {
+			w.Visit = func(in ssa.Instruction, _ Env) bool {
 				if isKeep[in] {
 					return false
 				}
